@@ -381,7 +381,12 @@ class PythonToIrCompiler:
             lhs = self.builder.emit_load(var.value, var.ty)
             rhs = self.gen_expr(statement.value)
             op = self.binop_map[type(statement.op)]
-            value = self.emit(ir.Binop(lhs, op, rhs, "augassign", var.ty))
+            if isinstance(statement.op, ast.FloorDiv) and var.ty is ir.i64:
+                value = self.gen_floor_div(lhs, rhs)
+            else:
+                value = self.emit(
+                    ir.Binop(lhs, op, rhs, "augassign", var.ty)
+                )
             self.emit(ir.Store(value, var.value))
         else:  # pragma: no cover
             self.not_impl(statement)
@@ -502,8 +507,25 @@ class PythonToIrCompiler:
             op = self.binop_map[op_typ]
         else:
             self.not_impl(expr)
-        value = self.builder.emit_binop(a, op, b, ty)
+        if op_typ is ast.FloorDiv and ty is ir.i64:
+            value = self.gen_floor_div(a, b)
+        else:
+            value = self.builder.emit_binop(a, op, b, ty)
         return value
+
+    def gen_floor_div(self, a, b):
+        """Integer division rounding to minus infinity (ir '/' truncates)."""
+        ty = ir.i64
+        emit = self.builder.emit_binop
+        quotient = emit(a, "/", b, ty)
+        remainder = emit(a, "%", b, ty)
+        # -1 if the remainder is non-zero and its sign differs from b's sign:
+        shift = self.builder.emit_const(63, ty)
+        zero = self.builder.emit_const(0, ty)
+        differ = emit(emit(remainder, "^", b, ty), ">>", shift, ty)
+        negated = emit(zero, "-", remainder, ty)
+        nonzero = emit(emit(remainder, "|", negated, ty), ">>", shift, ty)
+        return emit(quotient, "+", emit(differ, "&", nonzero, ty), ty)
 
     def gen_call(self, expr):
         """Compile call-expression."""
